@@ -267,4 +267,13 @@ Proof.
   destruct (edges toks i) as [|[[|l ls] to] [|e2 r]] eqn:Ee; try (right; now apply Hgen).
   left. now exists to.
 Qed.
+(* the unlabelled edges of an or node have distinct targets *)
+Lemma or_ok_nodup i : or_ok toks i = true ->
+  NoDup (map snd (filter (fun e : list Z * nat => match fst e with [] => true | _ => false end) (edges toks i))).
+Proof.
+  intros Ho. unfold or_ok in Ho.
+  destruct (edges toks i) as [|[[|l ls] to] [|e2 r]] eqn:Ee;
+    try (apply andb_true_iff in Ho; destruct Ho as [_ Ho]; now apply nodupn_NoDup).
+  cbn [filter fst map snd]. constructor; [intros []|constructor].
+Qed.
 End Conf.
